@@ -669,6 +669,18 @@ class Session:
                 self.cli_value(value, oper.get("format"))
             if oper.get("mustexist", True):
                 argv.append("-m")
+            if oper.get("saveto") and len(positions) == 1 \
+                    and oper.get("form") == "concrete" \
+                    and expected.kind == "m" \
+                    and all(k != ("str", "zz_saved")
+                            for k, _v in expected.items):
+                # --saveto: the old value is kept under a new key; the set
+                # itself (aliases included) is what it is without it
+                argv.append("--saveto=/zz_saved")
+                expected.items.append((
+                    ("str", "zz_saved"),
+                    model.MNode("s", value=targets[0].value)))
+                self.stats["forms"].add(("set", "cli-saveto"))
             self.run_cli(argv, "C03", "set " + path)
             self.cli_compare("C03", expected, "frame-or-value",
                              {"path": path, "value": value, "via": "cli",
@@ -1057,7 +1069,7 @@ def gen_op(rng, tree, prop, flow=False):
             # then emits its internal fold markers (\a) into a quoted string
             fmt = "default"
         return {"op": "set", "path": path, "value": value,
-                "format": fmt,
+                "format": fmt, "saveto": rng.random() < 0.15,
                 "mustexist": rng.random() < 0.6, "form": form}
     if kind == "delete":
         path, form = gen_path(rng, tree, "any")
